@@ -107,5 +107,27 @@ def join(nals, sc_choice):
     return bytes(out)
 
 
+def seen_payloads(data):
+    """NAL payloads as an Annex-B reader that attributes trailing zero bytes to the preceding NAL sees
+    them: from after each 00 00 01 to the next one, minus the zero that makes the next start code
+    4 bytes long (so `NAL 00 00 00 01` keeps one zero after a 3-byte... none: the zero belongs to
+    the start code; `NAL 00 | 00 00 01` likewise gives the zero to the start code)"""
+    offs = []
+    i = data.find(b"\x00\x00\x01")
+    while i >= 0:
+        offs.append(i)
+        i = data.find(b"\x00\x00\x01", i + 3)
+    out = []
+    for k, o in enumerate(offs):
+        if k + 1 < len(offs):
+            e = offs[k + 1]
+            if data[e - 1] == 0:
+                e -= 1
+        else:
+            e = len(data)
+        out.append(bytes(data[o + 3 : e]))
+    return out
+
+
 def split(data):
     return R.split_annexb(data)
